@@ -191,7 +191,9 @@ def parse_raw(path, max_cases):
         elif t[0] == "W":
             cur["worlds"].append(t[1:6])
         elif t[0] == "END":
-            cases.append(cur)
+            # very large directed scripts stay with the extracted model (parsing cost inside Coq)
+            if sum(len(m) for m in cur["ms"]) <= 1500:
+                cases.append(cur)
             cur = None
     return pres, cases
 
@@ -204,7 +206,8 @@ def target_coq(c):
     k = c["kind"]
     mss = [ms_coq(Toks(m)) for m in c["ms"]]
     if k.startswith("ms-"):
-        return "TMs %s %s" % (cb(c["rl"][0]), mss[0])
+        cx = {"ms-bare": "Bare", "ms-legacy": "Legacy", "ms-segv0": "Segwitv0", "ms-tap": "Tap"}[k]
+        return "TMs %s %s %s" % (cx, cb(c["rl"][0]), mss[0])
     one = {"wsh": "DWsh", "shwsh": "DShWsh", "sh": "DSh", "bare": "DBare"}
     if k in one:
         return "TDesc (%s %s %s)" % (one[k], cb(c["rl"][0]), mss[0])
@@ -231,7 +234,7 @@ def opt(x):
 def gen_coq(pres, cases, per_case):
     out = ["(* generated by tools/props/c07.py from this run's harness output; do not edit *)",
            "From Coq Require Import List NArith Bool.", "Import ListNotations.",
-           "From Verif Require Import Ast LiftModel LiftCasesDefs.", "Open Scope N_scope.", ""]
+           "From Verif Require Import Ast LiftModel LiftLimits LiftCasesDefs.", "Open Scope N_scope.", ""]
     # the last PRE line is the all-zero preimage (not an asset)
     out.append("Definition lift_pre_table : list lpre := [%s]." % ";\n  ".join(
         "(%s, (%s, %s, %s, %s))" % (p[0], blit(p[2]), blit(p[3]), blit(p[4]), blit(p[5])) for p in pres[:-1]))
@@ -245,7 +248,8 @@ def gen_coq(pres, cases, per_case):
     wrows, wmap = [], []
     for idx, c in enumerate(cases):
         ws = c["worlds"]
-        if c["lift"][0] != "OK" or not ws:
+        # worlds of very wide scripts stay with the extracted model (the list-valued table is huge there)
+        if c["lift"][0] != "OK" or not ws or sum(len(m) for m in c["ms"]) > 300:
             continue
         step = max(1, len(ws) // per_case)
         for j in range(0, len(ws), step):
@@ -269,7 +273,7 @@ def coq_sample(rep, raw0, ncases, per_case, seed, n, cap):
     text, wmap = gen_coq(pres, cases, per_case)
     tdir = os.path.join(vlib.COQ, "Tables")
     open(os.path.join(tdir, "LiftCasesGen.v"), "w").write(text)
-    for f in ("Tables/LiftCasesDefs.v", "Tables/LiftCasesGen.v"):
+    for f in ("Tables/LiftCasesDefs.v", "Tables/LiftCasesGen.v"):  # LiftLimits.vo comes from make
         c = vlib.coqc(f)
         if c.returncode != 0:
             raise RuntimeError("%s does not compile: %s" % (f, (c.stderr or c.stdout)[-2000:]))
@@ -304,7 +308,8 @@ def coq_sample(rep, raw0, ncases, per_case, seed, n, cap):
 
 def replay_obj(seed, n, cap, case_id, extra):
     cid = int(case_id)
-    # ids above 1000000 are the committed corpus (harness/src/lift.rs CORPUS), emitted by part 0 of every run
+    # ids above 1000000 are the committed corpus and the directed resource-limit family (harness/src/lift.rs),
+    # emitted by part 0 of every run
     rerun = ("verif-harness lift %d 0 0 1 %d" % (seed, cap)) if cid > 1000000 else ("verif-harness lift %d %d %d %d %d" % (seed, n, cid - 1, n, cap))
     d = {"property": "C07", "engine": "lift", "seed": seed, "n": n, "cap": cap, "case": cid,
          "rerun": rerun + " | ocaml/_build/lift/driver_lift"}
@@ -333,6 +338,17 @@ def report(rep, r, seed, n, cap):
     # smallest script first: the replay written for a key is the first one reported
     for b in sorted(r["bad"], key=lambda x: (len(x.get("ms", "")), x.get("case", ""))):
         bad_cases.add(b.get("case"))
+        if b.get("limit"):
+            # the policy is true in this world, but the satisfaction the library builds there breaks a
+            # resource limit of the context (or is rejected by the Script semantics): the path is not spendable
+            what = ("lifted policy is true in a world whose witness is not spendable: %s ms=[%s] world(keymask=%s premask=%s lock=%s seq=%s): %s "
+                    "(witness items=%s bytes=%s ops=%s depth=%s)" %
+                    (b.get("kind"), b.get("ms", "")[:200], b.get("keymask"), b.get("premask"), b.get("lock"), b.get("seq"), b.get("limit"),
+                     b.get("items"), b.get("bytes", "-"), b.get("ops", "-"), b.get("depth", "-")))
+            rep.violation("c07:unspendable:%s:%s" % (b.get("limit"), b.get("kind")), what,
+                          replay_obj(seed, n, cap, b.get("case", 0), dict(b, ms=b.get("ms", "")[:2000], line=b.get("line", "")[:1500],
+                                     failed_clause="policy true in W => some witness over W within the context's resource limits is accepted")), True)
+            continue
         w = who(b)
         what = ("lifted policy does not match the spending condition: %s ms=[%s] world(keymask=%s premask=%s lock=%s seq=%s): "
                 "policy says %s, implementation's satisfier says %s, specification table says %s; policy=%s" %
@@ -342,6 +358,13 @@ def report(rep, r, seed, n, cap):
                       replay_obj(seed, n, cap, b.get("case", 0), dict(b, who_disagrees=w,
                                  failed_clause="leval W (lift d) = (satisfier finds a satisfaction under W) = (all_sat W d <> [])")), True)
     for d in r["diff"]:
+        if d.get("line", "").startswith("DIFF rl"):
+            found = d.get("case") in bad_cases
+            rep.violation("tie:within_resource_limits:%s" % d.get("kind"),
+                          "model of within_resource_limits (LiftLimits.v over ExtModel.ext_of) and implementation disagree: %s" % d.get("line", "")[:400],
+                          replay_obj(seed, n, cap, d.get("case", 0), dict(d, line=d.get("line", "")[:1500], ms=d.get("ms", "")[:2000],
+                                     broken_tie="correspondence LiftLimits.within_resource_limits vs Miniscript::within_resource_limits")), found)
+            continue
         found = d.get("case") in bad_cases
         rep.violation("tie:lift-model:%s" % d.get("kind"),
                       "model of lift and implementation disagree: %s" % d.get("line", "")[:600],
@@ -399,8 +422,8 @@ def run(rep, tier, seed, replay):
     with vlib.Lock("coq-c07"):
         coq_ok, coq_cases, coq_worlds = coq_sample(rep, results[0][0], ncoq, per_case, seed, n, cap)
     s = r["summary"]
-    tie_ok = not r["diff"] and s.get("lift_diff", 0) == 0
-    oracle_ok = not r["bad"] and not r["panic"]
+    tie_ok = not r["diff"] and s.get("lift_diff", 0) == 0 and s.get("rl_diff", 0) == 0
+    oracle_ok = not r["bad"] and not r["panic"] and s.get("over_limit", 0) == 0 and s.get("x_bad", 0) == 0
     hist = r["hist"]
     rep.coverage.update({
         "obligations": len(thms) + 3,
@@ -410,7 +433,8 @@ def run(rep, tier, seed, replay):
         "trusted_base": vlib.TRUSTED_BASE_COMMON + [
             "Coq extraction to OCaml (ExtrOcamlBasic only) and ocaml/driver_lift.ml (text parsing, table lookups); cross-checked on a sample by vm_compute inside Coq each run",
             "truth-table semantics leval and the satisfaction table all_sat (SatSpec.v) are hand-written specifications",
-            "within_resource_limits (Ctx::check_local_validity) is not modelled: its verdict is read from the implementation and passed to the model as an input bit",
+            "within_resource_limits is computed by the model (LiftLimits.v) from the C09 ExtData model ExtModel.ext_of, whose figures are tied exactly by the C09 check; here the resulting verdict is compared on every case",
+            "the instrumented Script semantics coq/Script/ExecTr.v (opcode count, stack depth) and the dummy-signature environment of the driver",
             "whether a satisfaction the satisfier returns really spends is C01's oracle, not re-executed here (signatures are dummies)"],
         "evaluations": s.get("worlds", 0) + s.get("cases", 0),
         "distinct_nontrivial": s.get("worlds_true", 0),
@@ -424,6 +448,9 @@ def run(rep, tier, seed, replay):
         "lift_equal_model": s.get("lift_eq", 0), "lift_differs_from_model": s.get("lift_diff", 0),
         "worlds_evaluated": s.get("worlds", 0), "worlds_policy_true": s.get("worlds_true", 0),
         "worlds_three_way_agree": s.get("worlds", 0) - s.get("bad", 0) - s.get("sat_panic", 0), "worlds_disagree": s.get("bad", 0),
+        "within_resource_limits_equal_model": s.get("rl_eq", 0), "within_resource_limits_differs": s.get("rl_diff", 0),
+        "satisfied_worlds_over_a_context_limit": s.get("over_limit", 0),
+        "witnesses_executed_by_spec_semantics": s.get("x_run", 0), "witnesses_rejected_or_over_limit": s.get("x_bad", 0),
         "scripts_swept_exhaustively": s.get("exhaustive", 0), "scripts_sampled_worlds": s.get("sampled", 0),
         "coq_sample_cases": coq_cases, "coq_sample_worlds": coq_worlds, "coq_sample_ok": coq_ok,
         "fragment_histogram": {k[5:]: v for k, v in sorted(hist.items()) if k.startswith("frag/")},
